@@ -11,7 +11,7 @@ use crate::props::common::*;
 use serde_json::json;
 use std::collections::HashMap;
 
-pub const RULE: &str = "set-of-classes model checked after every insert with a full-universe sweep. (a) exhaustive DFS over every insertion sequence of distinct classes up to capacity+1 and every sequence with one repeat for (q,r) in {(1,1),(1,2),(2,1),(2,2)} under the Identity hasher; (b) thorough: every quotient sequence of length <= 8 for q=3; (c) capacity boundary of tables with 2^12..2^25 (2^26 thorough) slots, one class per slot; (d) random and crafted (hot quotient, wrap-around, full table) histories for q<=8, r<=16 (every 6th item r in {33,40,48,64-q}, universes with single-bit-neighbour fingerprints) with Identity/Mix/Sip/Collide hashers. non-trivial = history with >= 1 shift step or a Full error; distinct = distinct (config, insertion sequence) hashes";
+pub const RULE: &str = "set-of-classes model checked after every insert with a full-universe sweep. (a) exhaustive DFS over every insertion sequence of distinct classes up to capacity+1 and every sequence with one repeat for (q,r) in {(1,1),(1,2),(2,1),(2,2)} under the Identity hasher; (b) thorough: every quotient sequence of length <= 8 for q=3; (c) capacity boundary of tables with 2^12..2^25 (2^26 thorough) slots, one class per slot; (d) random and crafted (20 % with a clear() in the middle, 25 % continuing on a clone) (hot quotient, wrap-around, full table) histories for q<=8, r<=16 (every 6th item r in {33,40,48,64-q}, universes with single-bit-neighbour fingerprints) with Identity/Mix/Sip/Collide hashers. non-trivial = history with >= 1 shift step or a Full error; distinct = distinct (config, insertion sequence) hashes";
 pub const ASSUMPTIONS: &[&str] = &[
     "classes are defined by the filter under test exactly as the property states (singleton filter reports the other element); the collapse gate bounds over-approximation",
     "Identity hasher: hash_one(k) == k (unit-tested)",
@@ -410,7 +410,22 @@ pub fn random_item(ctx: &Ctx, i: usize, rep: &mut Report) {
         let mut seq = vec![];
         let fill_order = r.below(3);
         let mut fulls = 0;
+        let clear_at = if r.chance(0.2) { Some(r.below(n_ops as u64) as usize) } else { None };
+        let clone_at = if r.chance(0.25) { Some(r.below(n_ops as u64) as usize) } else { None };
         for s in 0..n_ops {
+            if clear_at == Some(s) {
+                // clear(): the set of classes is empty again; everything after must behave like a fresh filter
+                Flt::clear(&mut f);
+                m = Model::new(&cls, cap);
+                seq.push(u64::MAX); // marker in the witness
+                if let Err((sig, what)) = observe(&f, &m, &mut queries) {
+                    rep.violation(format!("{}/after-clear", sig), format!("{}: after clear(): {}", label, what), json!({"config": cfg, "inserts_then_clear": seq}));
+                    return;
+                }
+            }
+            if clone_at == Some(s) {
+                f = f.clone();
+            }
             let k = match fill_order {
                 0 => *r.pick(&universe),
                 1 => universe[(s * 7 + 3) % universe.len()],
